@@ -774,7 +774,9 @@ class ExcelCompiler:
             self._gen_graph(address)
             cell_range = self.cell_map[address]
 
-        if cell_range.needs_calc:
+        if cell_range.needs_calc or self.cycles:
+            # iterative mode never resets: a cached range would never see
+            # a later set_value or the next pass of a cycle through it
             self.log.debug(f"Evaluating: {cell_range.address}, {cell_range.python_code}")
             if cell_range.address.is_unbounded_range:
                 bounded_addr = str(self.eval(cell_range))
